@@ -120,7 +120,11 @@ fn check_container<K: Kmer, V: Vmer>(name: &str, v: &V, s: &[u8], c: &mut Case, 
 fn c13_k<K: Kmer>(c: &mut Case) -> Result<(), String> {
     let k = K::k();
     let fixed = [0usize, 1, 31, 32, 33, 63, 64, 65, 96, 97, 128, 129];
-    let n = if c.lane_miri {
+    let long = !c.lane_miri && c.rng.chance(1, 500);
+    if long { c.count("sequences_longer_than_65000", 1); }
+    let n = if long {
+        (1usize << c.rng.range(16, 17)) + *c.rng.pick(&[0usize, 1, 31, 32, 33, 64]) - c.rng.below(2) * 35
+    } else if c.lane_miri {
         // interpreter lane: block-boundary lengths, where an unchecked read would leave the storage
         *c.rng.pick(&[32usize, 64, 65, 33, 96]).max(&k)
     } else { match c.rng.below(5) {
@@ -179,6 +183,19 @@ fn c13_k<K: Kmer>(c: &mut Case) -> Result<(), String> {
         c.nontrivial(H::new().u(k as u64).b(&s).get());
         return Ok(());
     }
+    if long {
+        // positions around the 2^16 boundary and the very end
+        let ds = DnaString::from_bytes(&s);
+        for i in [65_535usize, 65_536, 65_537, 65_536 - k, n - k, n - k - 1, 65_504, 65_505] {
+            if i + k <= n {
+                let g: K = ds.get_kmer(i);
+                ensure!(kstr(&g) == s[i..i + k], "DnaString of {} bases: get_kmer::<K={}>({})", n, k, i);
+                let sl = ds.slice(i, n);
+                let f: K = sl.first_kmer();
+                ensure!(kstr(&f) == s[i..i + k], "slice({}, {}) of a long string: first_kmer::<K={}>", i, n, k);
+            }
+        }
+    }
     // fixed-size strings of every capacity
     if n <= Lmer1::max_len() { checks += check_container::<K, Lmer1>("Lmer1", &Lmer1::from_slice(&s), &s, c, all)?; }
     if n <= Lmer2::max_len() { checks += check_container::<K, Lmer2>("Lmer2", &Lmer2::from_slice(&s), &s, c, all)?; }
@@ -204,6 +221,60 @@ fn c13_k<K: Kmer>(c: &mut Case) -> Result<(), String> {
     Ok(())
 }
 
+/// a string longer than 2^31 bases (all A except a few planted bases): extraction near and beyond
+/// the 2^31 / 2^32 base offsets (32-bit bit-address / base-index arithmetic)
+fn c13_huge(c: &mut Case) -> Result<(), String> {
+    let beyond32 = c.tier == crate::runner::Tier::Thorough && c.idx % 2 == 1;
+    let n: usize = if beyond32 { (1usize << 32) + 200 } else { (1usize << 31) + 200 };
+    let mut x = DnaString::blank(n);
+    ensure!(x.len() == n, "blank({}) has length {}", n, x.len());
+    let mut planted: std::collections::BTreeMap<usize, u8> = std::collections::BTreeMap::new();
+    let marks: Vec<usize> = {
+        let mut v = vec![(1usize << 31) - 70, (1usize << 31) - 1, 1usize << 31, (1usize << 31) + 33, n - 1, n - 40, 5, 100_000];
+        if beyond32 {
+            v.extend_from_slice(&[(1usize << 32) - 3, 1usize << 32, (1usize << 32) + 64]);
+        }
+        v
+    };
+    for &p in &marks {
+        for d in 0..6usize {
+            if p + d < n {
+                let b = 1 + c.rng.below(3) as u8;
+                x.set_mut(p + d, b);
+                planted.insert(p + d, b);
+            }
+        }
+    }
+    let base_at = |i: usize| -> u8 { *planted.get(&i).unwrap_or(&0) };
+    for &p in &marks {
+        for start in [p.saturating_sub(20), p.saturating_sub(3), p, p + 2] {
+            if start + 48 > n {
+                continue;
+            }
+            ensure!(x.get(start) == base_at(start), "get({}) on a {}-base string", start, n);
+            let g: Kmer24 = x.get_kmer(start);
+            let exp: S = (start..start + 24).map(base_at).collect();
+            ensure!(kstr(&g) == exp, "DnaString of {} bases: get_kmer::<Kmer24>({}) = {:?}, bases are {}", n, start, g, ascii(&exp));
+            let g2: Kmer48 = x.get_kmer(start);
+            let exp2: S = (start..start + 48).map(base_at).collect();
+            ensure!(kstr(&g2) == exp2, "DnaString of {} bases: get_kmer::<Kmer48>({})", n, start);
+            let sl = x.slice(start, (start + 100).min(n));
+            let f: Kmer24 = sl.first_kmer();
+            ensure!(kstr(&f) == exp, "slice({}, ..) of a {}-base string: first_kmer", start, n);
+            let it: Vec<Kmer24> = sl.iter_kmers().take(3).collect();
+            ensure!(it.len() == 3 && kstr(&it[0]) == exp, "slice({}, ..) of a {}-base string: iter_kmers", start, n);
+            let r: Kmer24 = sl.rc().last_kmer();
+            ensure!(kstr(&r) == rc(&exp), "rc slice at {} of a {}-base string: last_kmer", start, n);
+        }
+    }
+    let l: Kmer24 = x.last_kmer();
+    ensure!(kstr(&l) == (n - 24..n).map(base_at).collect::<S>(), "last_kmer of a {}-base string", n);
+    c.count("huge_strings", 1);
+    c.count("huge_strings_beyond_2_32", beyond32 as u64);
+    c.nontrivial(H::new().u(n as u64).u(c.idx).get());
+    Ok(())
+}
+
 pub const RULE_C13: &str = "case = random base string (length <K, K..K+3, block-boundary lengths 31/32/33/63/64/65/96/97/128/129, or random <= 200) x one of the 19 K types, read through DnaString, DnaBytes, DnaSlice, forward and reverse-complemented DnaStringSlice at a random backing offset 0-69 (plus a nested slice of each), and Lmer of capacity 1-6 words when it fits; checked: iter_kmers count and items, iter_kmer_exts items and flank masks with a random caller boundary mask, get_kmer at first/last/random and all block-crossing positions (all positions in a quarter of thorough cases), first/last/both_term/term_kmer, kmers_from_bytes/ascii; distinct = hash(K, sequence, offset); non-trivial = length >= K";
 
 pub fn run_c13(ctx: &Ctx) {
@@ -212,9 +283,16 @@ pub fn run_c13(ctx: &Ctx) {
         let idx = (c.idx % 19) as usize;
         with_all_k!(idx, K => c13_k::<K>(c))
     });
+    if !ctx.is_miri() && ctx.lane == "release" {
+        // 0.5 GiB (quick) / 1 GiB (thorough) of packed storage, one case at a time
+        ctx.set_case_timeout(600);
+        ctx.run_group_t("huge", ctx.n(1, 2), false, 1, |c| c13_huge(c));
+        ctx.require("huge_strings", 1);
+    }
     if !ctx.is_miri() {
         ctx.require("extraction_checks", 100_000);
         ctx.require("sequences_shorter_than_k", 100);
+        ctx.require("sequences_longer_than_65000", 100);
         ctx.require("sequences_crossing_two_blocks", 100);
     }
 }
